@@ -25,7 +25,7 @@ INFO = {
                    "cache[l] = H(cache[l+1], cache[l+1]); root() is node 0 / get_node(0, 0). R06-4 the persistent adapter delegates: set/delete/update_next/set_range/get/root/"
                    "leaves_set/depth/capacity/proof each call pmtree's operation of the same name with the caller's arguments exactly once and before any branch. "
                    "R06-5 get_subtree_root(n, index) in the three back ends: two bounds rejections, level 0 = root(), level depth = get(index), level n = the node "
-                   "(n, index >> (depth - n)) - in the full tree as a climb of depth - n parents ((i+1)>>1)-1 from node 2^depth + index - 1 (or the equivalent closed form).",
+                   "(n, index >> (depth - n)) - in the full tree as a climb of depth - n parents ((i+1)>>1)-1 from node 2^depth + index - 1 (or the equivalent closed form). R06-6 the plain observers: capacity = 1 << depth, depth, metadata/set_metadata (in-memory trees), compute_root = Ok(root()). R06-7 who-may-write: next_index, nodes, the default cache and depth of the in-memory trees are stored only by the operations whose effect is specified.",
     "not_decided": "equality of roots/leaves with the ideal tree as values over histories (numeric; Poseidon opaque), pmtree's internals",
     "assumptions": ["pmtree's mutators are atomic on their own errors"],
 }
@@ -622,6 +622,73 @@ def check_subtree_root(ctx, fb):
     ctx.check(vals == want, "R06-5", "full::parent", "None for the root, ((i + 1) >> 1) - 1 otherwise", "parent is %s" % sorted(vals), loc(it))
 
 
+def check_plain_observers(ctx, fb):
+    """R06-6: the remaining read-only operations are what their names say, in every back end"""
+    for name in ("optimal", "full"):
+        it = c15.get(fb, name, "capacity")
+        ctx.touch(it)
+        v = prim(fb, it.path, P(1))
+        ctx.check(v == ("bin", "Shl", mk_const("usize", 1), F(P(1), "depth")), "R06-6", "%s::capacity" % name, "1 << depth", "capacity is %s" % sh(v, 80), loc(it))
+        it = c15.get(fb, name, "depth")
+        ctx.touch(it)
+        v = prim(fb, it.path, P(1))
+        ctx.check(v == F(P(1), "depth"), "R06-6", "%s::depth" % name, "the depth field", "depth is %s" % sh(v, 80), loc(it))
+        it = c15.get(fb, name, "metadata")
+        ctx.touch(it)
+        v = prim(fb, it.path, P(1))
+        ctx.check(known_ok(v) is True and v[4][0] == F(P(1), "metadata"), "R06-6", "%s::metadata" % name, "Ok(stored metadata)", "metadata is %s" % sh(v, 80), loc(it))
+        it = c15.get(fb, name, "set_metadata")
+        ctx.touch(it)
+        eng = Engine(fb, inline=lambda i: False)
+        ps = ret_paths(eng.run(it))
+        ws = [e for p in ps for e in p.trace if e[0] == "write"]
+        good = len(ps) == 1 and known_ok(eng.value_of(ps[0].store, ps[0].ret)) is True and len(ws) == 1 and ws[0][2] == (("f", "metadata"),) and ws[0][3] == P(2)
+        ctx.check(good, "R06-6", "%s::set_metadata" % name, "stores the caller's bytes in the metadata field and nothing else", "set_metadata writes %s" % [(sh(e[2], 30), sh(e[3], 40)) for e in ws], loc(it))
+    for name in ("pmtree", "optimal", "full"):
+        it = c15.get(fb, name, "compute_root")
+        ctx.touch(it)
+        eng = Engine(fb, inline=lambda i: False)
+        oks = [p for p in eng.run(it) if p.kind == "return" and known_ok(eng.value_of(p.store, p.ret)) is True]
+        good = len(oks) == 1
+        why = "expected one success path, found %d" % len(oks)
+        if good:
+            v = eng.value_of(oks[0].store, oks[0].ret)[4][0]
+            # the result is root() of the tree (optimal: after re-deriving the path of leaf 0, which must not change a consistent tree)
+            arg = v[2][0] if (v[0] == "call" and v[1].endswith("::root") and len(v[2]) == 1) else None
+            base = arg
+            if isinstance(arg, tuple) and arg and arg[0] == "upd" and "recalculate_from" in str(arg[1]):
+                base = arg[3][0] if len(arg) > 3 else None
+            good = base in (P(1), F(P(1), "tree"))
+            why = "compute_root returns %s, specification root()" % sh(v, 100)
+            if good and mutation_events(oks[0]):
+                good, why = False, "compute_root stores into the tree directly: %s" % mutation_events(oks[0])[:2]
+        ctx.check(good, "R06-6", "%s::compute_root" % name, "Ok(root())", why, loc(it))
+
+
+WRITERS = {
+    # field -> functions allowed to store into it (each is covered by R06-1..R06-3: guards, formulas, recomputation shape)
+    "next_index": {"set", "set_range", "new", "default"},
+    "nodes": {"set", "set_range", "update_nodes", "update_hashes", "recalculate_from", "new", "default"},
+    "cached_nodes": {"new", "default"},
+    "depth": {"new", "default"},
+}
+
+
+def check_writers(ctx, fb):
+    """R06-7 who-may-write for the in-memory trees' state: leaves/nodes, the high-water mark, the default cache and the depth are stored
+    only by the operations whose effect is decided above; a store anywhere else (an observer, a proof routine) escapes every formula"""
+    n = 0
+    for field, allowed in sorted(WRITERS.items()):
+        ws = treefx.field_writers(fb, field, c15.TREE_FILES[:2])
+        for path, it in sorted(ws.items()):
+            name = re.sub(r"::\{closure#\d+\}", "", path).split("::")[-1]
+            ctx.touch(it)
+            n += 1
+            ctx.check(name in allowed, "R06-7", "%s writer %s@%s" % (field, path.split("::")[-1], it.file.split("/")[-1]), "one of %s" % sorted(allowed),
+                      "%s stores into `%s` but is not one of the operations whose effect on it is specified (%s)" % (path, field, sorted(allowed)), loc(it))
+    ctx.floor("state-writers", n, 10)
+
+
 def run(ctx):
     ctx.prefetch(["default", "fixtures"])
     fb = ctx.fb("default")
@@ -630,6 +697,8 @@ def run(ctx):
     check_recompute(ctx, fb)
     check_delegation(ctx, fb)
     check_subtree_root(ctx, fb)
+    check_plain_observers(ctx, fb)
+    check_writers(ctx, fb)
     if ctx.tier == "thorough":
         for cfg in ("optimal", "full"):
             f = ctx.fb(cfg)
